@@ -243,6 +243,30 @@ def check_copy(U, a, enc, hist, sel, mode, acc):
         acc.count('nontrivial')
 
 
+def check_empty(U, a, enc, hist, acc):
+    X = U.wbs[0]
+    calls = [('subtree([])', lambda: X.subtree([]))]
+    if not a.members(0):
+        calls.append(('clone()', lambda: X.clone()))
+    for name, fn in calls:
+        case = {'universe': U.name, 'readable_history': [bfs.O.describe(h) for h in hist], 'call': name}
+        before = obs_members(U, 0)
+        acc.count('copies')
+        acc.count('premise:empty-selection')
+        try:
+            cw = fn()
+        except Exception as ex:  # noqa
+            acc.violation('C10', f'{name}/raised-{type(ex).__name__}/empty-selection', f'{name} raised {type(ex).__name__}: {ex}', case)
+            continue
+        if cw is X or len(cw.tasks) != 0:
+            acc.violation('C10', f'{name}/members-differ/empty-selection', f'{name} returned a WBS with {len(cw.tasks)} tasks', case)
+        if getattr(cw, 'title', None) != X.title:
+            acc.violation('C10', f'{name}/wbs-attributes-missing/empty-selection', f'copy.title = {getattr(cw, "title", None)!r}, source {X.title!r}', case)
+        if obs_members(U, 0) != before:
+            acc.violation('C10', f'{name}/source-changed-by-call/empty-selection', 'the source changed', case)
+        U.restore(enc)
+
+
 def _work(chunk):
     U, states = _U, _STATES
     acc = runtime.Acc()
@@ -251,6 +275,8 @@ def _work(chunk):
         obs = U.observe()
         a = core.abstract(obs, U.n, U.m)
         members = a.members(0)
+        # empty selections: a copy of nothing still is a new WBS carrying the WBS-level attributes
+        check_empty(U, a, enc, hist, acc)
         if not members:
             continue
         acc.count('states_with_members')
